@@ -108,11 +108,13 @@ def classify(p, d, rec, claims):
                 'converter emits `%s = ag__.Undefined(...)` before that statement (the handler binding is not a reaching '
                 'definition), so the bound exception is lost and a later read raises NameError' % (hn, hn, hn))
     hs = handler_name_used_outside_handler(p)
-    if hs and obs[0] == 'exc' and obs[1] == 'NameError' and (exp != obs or earlier):
+    if hs and ((obs[0] == 'exc' and obs[1] == 'NameError' and (exp != obs or earlier)) or (exp == ['exc', 'NameError'] and exp != obs)):
         return ('c01:except-as-name-shadows-outer-variable-in-generated-body',
                 'the name %s is bound by `except ... as %s` and is an ordinary variable of the function outside that handler; when '
                 'the try statement ends up inside a generated body function the except clause makes the name local to it, so '
-                'reads of the outer variable raise UnboundLocalError' % (hs, hs))
+                'reads of the outer variable raise UnboundLocalError there, and the unbinding of the name at the end of the '
+                'handler does not reach the outer variable (Python raises NameError at its next read, the converted function '
+                'reads the old value)' % (hs, hs))
     i0, ev0, ov0 = first_divergence(d)
     if ev0 and ov0 and ev0[:2] == ov0[:2] and len(ev0[2]) == len(ov0[2]):
         for x, y in zip(ev0[2], ov0[2]):
